@@ -220,6 +220,14 @@ fn foreign_use<R: rand::Rng>(rng: &mut R, name: &str, log: &mut Vec<String>) {
         }
     };
     let family = FAMILIES[rng.gen_range(0, 4)];
+    // one use in five is of a group the parser rejects (an operation pasted from typeset tables,
+    // a third coordinate, a decimal): the error must stay that use's own business
+    let mut strings = strings;
+    if rng.gen_range(0, 5) == 0 && !strings.is_empty() {
+        let bad = ["\u{2212}x,y", "x,y,z", "x+0.5,y", "", "x;y", "x,y+\u{bd}"][rng.gen_range(0, 6)];
+        let at = rng.gen_range(0, strings.len());
+        strings[at] = bad.to_string();
+    }
     let g = packing::WallpaperGroup { name, family, wyckoff_str: strings.iter().map(|s| s.as_str()).collect() };
     let how = rng.gen_range(0, 3);
     let r = std::panic::catch_unwind(std::panic::AssertUnwindSafe(|| match how {
@@ -256,7 +264,10 @@ pub fn child_main(seed: u64) -> ! {
         for _ in 0..n {
             let name = groups::NAMES[rng.gen_range(0, 7)];
             if rng.gen_bool(0.65) {
-                foreign_use(rng, name, log);
+                // (a user group under a built-in name, or under a name of its own)
+                let own = ["p4", "my group", "p2gm", "cm"][rng.gen_range(0, 4)];
+                let use_own = rng.gen_bool(0.3);
+                foreign_use(rng, if use_own { own } else { name }, log);
             } else {
                 builtin_use(rng, name, log);
             }
